@@ -28,6 +28,7 @@ import SH.Model.PromLex
 import SH.Lemmas.PromLexNum
 import SH.Lemmas.PromLexStr
 import SH.Lemmas.PromLexAllSteps
+import SH.Lemmas.PromLexChain
 set_option linter.unusedSimpArgs false
 namespace SH.Props.C28
 open SH.PromSyntax
@@ -1395,6 +1396,42 @@ theorem lex_range_suffix (f : Nat) (st : LexState) (hst : plain st) (hb : st.bra
 example : lexAll ("x[300s] @ 1.500".toList.map Char.toNat) =
     ([⟨"IDENTIFIER", 1⟩, ⟨"LEFT_BRACKET", 1⟩, ⟨"DURATION", 4⟩, ⟨"RIGHT_BRACKET", 1⟩, ⟨"AT", 1⟩, ⟨"NUMBER", 5⟩], .eof) := by
   decide
+
+/-! ### towards the character-level round trip
+
+  Full statement (NOT proved): for every accepted tree `e` in the fragment where the printer's spacing is a function of adjacent
+  tokens (everything except a unary `+`/`-` in front of an operand), `lexAll (printText e) = tokens of printExpr .fixed e`, hence
+  `parse (tokens (lexAll (printText e))) = some (norm e)`. What is proved: the chaining principle (`Lexes.lexAll`: a derivation of
+  justified lexer steps through a text determines what the whole lexer returns) and its first ∀-quantified instance below — range
+  selectors with an offset, for every identifier, range and offset — composed with the token-level theorem. Outside: every other
+  expression shape (the induction over `Expr` that builds the `Lexes` derivation from `lexer_steps` for a general `printText`). -/
+
+open SH.PromLex.Chain SH.PromLex.Num in
+/-- character level → tokens → tree, for `name[<n>s] offset <m>s`: the text the printer writes is lexed to exactly its six tokens
+    (through the `[`…`]` mode and the blanks), the two DURATION texts denote n and m, and the token-level round trip holds -/
+theorem accepted_roundtrip_text_fragment_partial (c : Nat) (w : List Nat) (n m : Nat)
+    (hc : (isAlphaB c || c == 58) = true) (hw : ∀ x ∈ w, isWordB x = true)
+    (hmi : isMetricIdent (classifyKind (String.ofList ((c :: w).map Char.ofNat))) = true)
+    (hn : okSecs n = true) (hm : okSecs m = true) :
+    let name := String.ofList ((c :: w).map Char.ofNat)
+    let e : Expr := .mat ⟨name, [nameMatcher name], .none, (m : Int), []⟩ n
+    lexAll (c :: w ++ 91 :: (printSeconds n ++ 93 :: 32 :: (offsetWord ++ 32 :: printSeconds m))) =
+      ([⟨kindTokName (classifyKind name), w.length + 1⟩, ⟨"LEFT_BRACKET", 1⟩, ⟨"DURATION", (printSeconds n).length⟩,
+        ⟨"RIGHT_BRACKET", 1⟩, ⟨"OFFSET", 6⟩, ⟨"DURATION", (printSeconds m).length⟩], .eof) ∧
+    parseDuration (printSeconds n) = some n ∧ parseDuration (printSeconds m) = some m ∧
+    parse (printExpr .fixed e) = some (norm e) := by
+  have hn' : n ≠ 0 ∧ n ≤ maxSecs := by simpa [okSecs] using hn
+  have hm' : m ≠ 0 ∧ m ≤ maxSecs := by simpa [okSecs] using hm
+  refine ⟨lexAll_range_offset c w n m hc hw, parseDuration_printSeconds n (by omega) hn'.2,
+    parseDuration_printSeconds m (by omega) hm'.2, parse_print _ ?_⟩
+  simp only [wf, okSel, hmi, hn, Bool.or_true, Bool.true_and, List.all_nil, Bool.and_true, Bool.and_eq_true, decide_eq_true_eq,
+    Int.natAbs_natCast]
+  exact hm'.2
+
+/-- non-vacuity: `foo[300s] offset 60s` -/
+example : (isAlphaB 102 || 102 == 58) = true ∧ (∀ x ∈ [111, 111], isWordB x = true) ∧
+    isMetricIdent (classifyKind (String.ofList (([102, 111, 111] : List Nat).map Char.ofNat))) = true ∧
+    okSecs 300 = true ∧ okSecs 60 = true := by decide
 
 end Lexical
 
